@@ -12,6 +12,8 @@ import (
 	"sync"
 	"time"
 
+	"go/types"
+
 	"golang.org/x/tools/go/ssa"
 )
 
@@ -217,6 +219,9 @@ func runCheck(args []string) int {
 			bindFails = append(bindFails, &Obl{Name: "bind:" + pat, Kind: "bind", V: Verdict{Result: "unbound", Solver: "-", Output: "function under contract no longer exists in /repo: " + pat}})
 		}
 	}
+	// axioms (facts about package-level variables) used by the functions above: proved as a
+	// postcondition of the package initialiser + "never assigned outside init" (scanGlobalWrites).
+	results = append(results, P.axiomObligations(results)...)
 	if pd.Sweep != "" {
 		re := regexp.MustCompile(pd.Sweep)
 		sk := map[string]bool{}
@@ -563,4 +568,83 @@ func runCanaries(results []*FuncResult) []string {
 	wg.Wait()
 	sort.Strings(bad)
 	return bad
+}
+
+
+// axiomObligations: for every axiom used (`uses`) by a verified function, verify the package
+// initialiser against it.  The second half of the argument - nothing but the initialiser assigns the
+// variables the axiom reads - is the obligation `axiom-stable`.
+func (P *Program) axiomObligations(results []*FuncResult) []*FuncResult {
+	used := map[string]bool{}
+	for _, r := range results {
+		if r.Spec != nil {
+			for _, u := range r.Spec.Uses {
+				used[u] = true
+			}
+		}
+	}
+	var out []*FuncResult
+	for _, name := range sortedKeys(used) {
+		for _, a := range P.axioms {
+			if a.Name != name {
+				continue
+			}
+			init := P.inits[a.Pkg]
+			if init == nil {
+				out = append(out, &FuncResult{Name: "axiom " + name, Unsupported: "no package initialiser for " + a.Pkg})
+				continue
+			}
+			sp := &FuncSpec{Key: "init", Pkg: a.Pkg, Loops: map[int]*LoopSpec{}, Pos: a.Pos,
+				Ensures: []Clause{{E: a.E, Pos: a.Pos, Name: "axiom:" + name}}}
+			sg := map[string]bool{}
+			for _, gname := range axiomGlobals(P, a) {
+				sg[gname] = true
+			}
+			r := P.Verify(init, sp, &Hooks{sliceGlobals: sg})
+			r.Name = "axiom " + name + " (" + r.Name + ")"
+			var keep []*Obl
+			for _, o := range r.Obls {
+				if o.Kind == "post" {
+					keep = append(keep, o)
+				}
+			}
+			r.Obls = keep
+			// stability: globals read by the axiom are never written outside init
+			for _, gname := range axiomGlobals(P, a) {
+				if sp2 := P.spkg[a.Pkg]; sp2 != nil {
+					if gl, ok := sp2.Members[gname].(*ssa.Global); ok {
+						v := Verdict{Result: "unsat", Solver: "scan"}
+						if P.globalsWritten[gl] {
+							v = Verdict{Result: "written-outside-init", Solver: "scan", Output: "package variable " + gname + " is assigned or escapes outside the package initialiser"}
+						}
+						r.Obls = append(r.Obls, &Obl{Name: "axiom " + name + "#axiom-stable:" + gname, Kind: "axiom-stable", V: v, Goal: "true", Guard: "true"})
+					}
+				}
+			}
+			out = append(out, r)
+		}
+	}
+	return out
+}
+
+func axiomGlobals(P *Program, a *Axiom) []string {
+	seen := map[string]bool{}
+	var walk func(e *SExpr)
+	walk = func(e *SExpr) {
+		if e == nil {
+			return
+		}
+		if e.Op == "ident" {
+			if tp := P.tpkgByPath[a.Pkg]; tp != nil {
+				if _, ok := tp.Scope().Lookup(e.Name).(*types.Var); ok {
+					seen[e.Name] = true
+				}
+			}
+		}
+		for _, x := range e.Args {
+			walk(x)
+		}
+	}
+	walk(P.expand(a.E))
+	return sortedKeys(seen)
 }
